@@ -36,6 +36,9 @@ try:
     cmdm = re.search(r"((?:cd\s+[^\s&;]+\s*&&\s*)?go (?:test|run)[^\n(]*)", dp)
     cmd = cmdm.group(1).strip() if cmdm else None
     demo_src = next((os.path.join(out, f) for f in ("demo_test.go", "demo/main.go", "main.go") if os.path.exists(os.path.join(out, f))), None)
+    ov = os.path.join(out, "demo_override.txt")   # two lines: target path in the tree, command (written by the lead when demo_path.txt is free text)
+    if os.path.exists(ov):
+        target, cmd = [l.strip() for l in open(ov).read().strip().splitlines()[:2]]
     meta["demo_target"], meta["demo_cmd"] = target, cmd
     if not (target and cmd and demo_src):
         print("cannot parse demo_path.txt:", dp); raise SystemExit(1)
